@@ -374,9 +374,15 @@ class Interp:
         elif r[0] == "external":
             v = self.lib.external(self, r[1])
         elif r[0] == "value":
-            dotted = f"{r[1]}.{name}"
+            home_name = r[3] if len(r) > 3 else name
+            dotted = f"{r[1]}.{home_name}"
             if dotted in self.symconst:
                 return self.symconst[dotted]
+            if (r[1], home_name) != key:
+                # a name imported from another module of the package is the very object that module holds
+                v = self.global_name(r[1], home_name)
+                self.module_cache[key] = v
+                return v
             # the binding may itself be an imported alias evaluated in its home module
             fr = Frame(self, r[1], r[1])
             v = self.eval(r[2], fr)
@@ -478,6 +484,9 @@ class Interp:
             frame.vars["$self"] = args[0]
         self.calls.append(fn.qual)
         self.depth += 1
+        if not hasattr(self, "dyn_stack"):
+            self.dyn_stack = []
+        self.dyn_stack.append(frame)
         try:
             if isinstance(node, ast.Lambda):
                 return self.eval(node.body, frame)
@@ -487,10 +496,14 @@ class Interp:
             live = self.exec_block(node.body, frame, sp.true) is not False
             if is_gen:
                 from .symval import GenVal
-                return GenVal(frame.vars["$yield"])
+
+                def gen(y):
+                    return merge(y.cond, gen(y.a), gen(y.b)) if isinstance(y, Phi) else GenVal(y)
+                return gen(frame.vars["$yield"])
             return self.finish(frame, live)
         finally:
             self.depth -= 1
+            self.dyn_stack.pop()
 
     IDENTITY_DECORATORS = {"require_keywords", "util.require_keywords"}
 
@@ -606,10 +619,15 @@ class Interp:
         """Copy of everything a branch may mutate."""
         memo = {}
         fr_vars = []
-        f = frame
-        while f is not None:
-            fr_vars.append((f, _cp(f.vars, memo)))
-            f = f.parent
+        seen = set()
+        # the lexical chain of the current frame and of every frame on the (dynamic) call stack: a container handed to a
+        # callee and changed there under a condition is the same object in the caller
+        for start in [frame] + list(reversed(getattr(self, "dyn_stack", []))):
+            f = start
+            while f is not None and id(f) not in seen:
+                seen.add(id(f))
+                fr_vars.append((f, _cp(f.vars, memo)))
+                f = f.parent
         heap = {k: _cp(v, memo) for k, v in self.heap.items()}
         cattrs = {q: dict(c.attrs) for q, c in self.classes.items()}
         return fr_vars, heap, cattrs
@@ -689,10 +707,10 @@ class Interp:
             if isinstance(st.value, ast.Constant):
                 return True
             if isinstance(st.value, (ast.Yield,)):
-                frame.lookup("$yield").append(self.eval(st.value.value, frame) if st.value.value is not None else None)
+                self._yield(frame, [self.eval(st.value.value, frame) if st.value.value is not None else None])
                 return True
             if isinstance(st.value, ast.YieldFrom):
-                frame.lookup("$yield").extend(self.lib.iterate(self, self.eval(st.value.value, frame)))
+                self._yield(frame, self.lib.iterate(self, self.eval(st.value.value, frame)))
                 return True
             self.eval(st.value, frame)
             return True
@@ -805,6 +823,15 @@ class Interp:
             return self.exec_match(st, frame, pc)
         raise AnalysisError(f"statement form {st.__class__.__name__} not modelled "
                             f"({frame.qual}:{getattr(st, 'lineno', '?')})")
+
+    def _yield(self, frame, values):
+        """append to the generator's output; after a data-dependent branch the output is a merged value with one list per arm"""
+        def add(y):
+            if isinstance(y, Phi):
+                add(y.a); add(y.b)
+            else:
+                y.extend(values)
+        add(frame.lookup("$yield"))
 
     def exec_match(self, st, frame, pc):
         """match/case over a value whose comparisons with the patterns are decided (literals, captures, sequences, or-patterns)"""
@@ -1251,6 +1278,17 @@ class Interp:
                 tree = ast.parse(src_.strip(), mode="eval")
             except SyntaxError:
                 raise SymRaise("SyntaxError", src_[:40])
+            scopes = [self.eval(a_, f) for a_ in n.args[1:3]]
+            if scopes:
+                # eval(text, globals[, locals]): the names come from the given mappings (then the builtins)
+                ef = Frame(self, f.module, f.qual + ".<eval>")
+                for sc in scopes:
+                    if sc is None:
+                        continue
+                    if not isinstance(sc, dict):
+                        raise AnalysisError("eval with a scope that is not a plain dict")
+                    ef.vars.update({k: v for k, v in sc.items() if isinstance(k, str)})
+                return self.eval(tree.body, ef)
             return self.eval(tree.body, f)
         args = self._elts(n.args, f)
         kwargs = {}
